@@ -20,6 +20,11 @@ inductive Cond
   | sockEnabled    -- self.exit_sockets[circuit_id].enabled
   | srcIpIsHopIp   -- sock_addr[0] == self.exit_sockets[circuit_id].hop.address[0]
   | ownCircuit     -- circuit and origin and sock_addr == circuit.hop.address   (circuit = self.circuits.get(circuit_id))
+  | ipv8Payload    -- DataChecker.could_be_ipv8(data)                 (own-circuit branch of on_data)
+  | e2eCircuit     -- circuit.ctype in [CIRCUIT_TYPE_RP_DOWNLOADER, CIRCUIT_TYPE_RP_SEEDER]
+  | ownPrefix      -- self._prefix == data[:22]
+  | nestedData     -- data[22] == DataPayload.msg_id   (a DATA cell nested in the payload of a DATA cell)
+  | tunnelEndpoint -- isinstance(self.endpoint, TunnelEndpoint)
   deriving DecidableEq, Repr, Inhabited
 
 inductive Act
@@ -30,7 +35,9 @@ inductive Act
   | enable         -- self.exit_sockets[circuit_id].enable()
   | sendto         -- self.exit_sockets[circuit_id].sendto(data, destination)
   | exitData       -- self.exit_data(circuit_id, sock_addr, destination, data)
-  | localDeliver   -- the body of on_data's own-circuit branch (hand-modelled: `localKind`)
+  | deliverOwn     -- self.on_packet_from_circuit(origin, data, circuit_id): re-dispatch by data[22] through decode_map_private
+  | deliverOther   -- self.endpoint.notify_listeners((origin, data), from_tunnel=True)
+  | deliverRaw     -- self.on_raw_data(circuit, origin, data)
   deriving DecidableEq, Repr, Inhabited
 
 inductive Prog
